@@ -271,6 +271,9 @@ impl DoviRpu {
             }
         }
 
+        // rpu_alignment_zero_bit: the parser aligns before reading the remaining data
+        writer.byte_align()?;
+
         if let Some(remaining) = &self.remaining {
             for b in remaining {
                 writer.write(*b)?;
